@@ -53,7 +53,43 @@ static CRATE: std::sync::OnceLock<String> = std::sync::OnceLock::new();
 
 /// rustc prints local paths as `crate::a::b`; rewrite to `<crate_name>::a::b`
 /// so that paths are the same whether seen from inside or outside the crate.
+/// Drop generic-argument segments that consist only of lifetimes (`::<'a>`,
+/// `::<'_, 'b>`): they carry no information for the rules and would make anchors
+/// depend on how a lifetime parameter happens to be spelled.
+fn strip_lifetime_segments(s: String) -> String {
+    if !s.contains("::<'") {
+        return s;
+    }
+    let b = s.as_bytes();
+    let mut o = String::with_capacity(s.len());
+    let mut i = 0;
+    while i < b.len() {
+        if s[i..].starts_with("::<'") {
+            // scan to the matching '>'
+            let mut j = i + 3;
+            let mut only_lt = true;
+            while j < b.len() && b[j] != b'>' {
+                let c = b[j];
+                if !(c == b'\'' || c == b'_' || c == b',' || c == b' ' || c.is_ascii_lowercase() || c.is_ascii_digit()) {
+                    only_lt = false;
+                    break;
+                }
+                j += 1;
+            }
+            if only_lt && j < b.len() {
+                i = j + 1;
+                continue;
+            }
+        }
+        let ch = s[i..].chars().next().unwrap();
+        o.push(ch);
+        i += ch.len_utf8();
+    }
+    o
+}
+
 fn fixcrate(s: String) -> String {
+    let s = strip_lifetime_segments(s);
     if !s.contains("crate::") {
         return s;
     }
@@ -108,8 +144,13 @@ impl<'a, 'tcx> Cx<'a, 'tcx> {
         // innermost-to-outermost; record the whole chain joined by '>'
         let mut names = Vec::new();
         for e in sp.macro_backtrace() {
-            if let rustc_span::ExpnKind::Macro(_, name) = e.kind {
-                names.push(name.to_string());
+            if let rustc_span::ExpnKind::Macro(mk, name) = e.kind {
+                let k = match mk {
+                    rustc_span::MacroKind::Bang => "b",
+                    rustc_span::MacroKind::Attr => "a",
+                    rustc_span::MacroKind::Derive => "d",
+                };
+                names.push(format!("{}:{}", k, name));
             } else {
                 names.push(format!("{:?}", e.kind).split('(').next().unwrap_or("").to_string());
             }
@@ -464,6 +505,9 @@ fn dump_body<'tcx>(tcx: TyCtxt<'tcx>, did: DefId, kind: DefKind, crate_name: &st
         }
     }
     let _ = write!(o, ",\"file\":{},\"line\":{},\"gen\":{}", js(&file), line, is_generated(&file));
+    if let Some(m) = cx.macro_name(body.span) {
+        let _ = write!(o, ",\"fnmac\":{}", js(&m));
+    }
     let _ = write!(o, ",\"nargs\":{}", body.arg_count);
     // locals
     o.push_str(",\"locals\":[");
